@@ -18,7 +18,7 @@ RULE = ("Generated test programs (setUp before/after the upcall, test method, te
         "extended, Twisted-style, testtools.TestResult, StreamResult behind ExtendedToStreamDecorator, result=None); "
         "oracle: the event log is exactly startTest, one outcome, stopTest; a non-Exception error is reported as an "
         "error, all later stages still run (execution log equals the reference interpreter's) and the very exception "
-        "object propagates out of run() after stopTest. Thorough adds the exhaustive grid of 10 behaviours x 5 "
+        "object (of a BaseExceptionGroup: it or a non-Exception part of it) propagates out of run() after stopTest. Thorough adds the exhaustive grid of 10 behaviours x 5 "
         "stages. Laid over the programs, and enumerated by variant_grid: the case is a clone_test_with_new_id copy; "
         "errors that are dataclass exceptions (unhashable, value-equal), equal-to-all exceptions, ExceptionGroups, "
         "a BaseExceptionGroup holding an interrupt; exception objects already reported by another test's run; a falsy "
@@ -29,11 +29,20 @@ RULE = ("Generated test programs (setUp before/after the upcall, test method, te
 ASSUMPTIONS = [
     "user handlers are only generated for Exception subclasses",
     "when two non-Exception errors are raised either may propagate",
+    "a BaseExceptionGroup raised by user code may leave run() as that object or as a part of it that does not derive from "
+    "Exception either (a nested member such as the KeyboardInterrupt inside, a split() subgroup of its very members)",
+    "tearDown is expected only after a completed setUp, also when setUp was cut short by a non-Exception: RunTest is documented "
+    "(doc/for-framework-folk.rst) to call setUp, the test method, tearDown and clean ups 'in the normal, vanilla way that "
+    "Python's standard unittest does', and unittest calls tearDown only if setUp succeeded; a runner that reads sentence 2 of "
+    "the statement literally and attempts tearDown after an interrupted setUp is reported (nonexc:stages-skipped)",
+    "a setUp / tearDown that never upcalls is an error of that stage (ValueError, docstrings of TestCase._run_setup / "
+    "_run_teardown), so the stages-still-run clause expects what follows an ordinary error there",
     "addOnException handlers that raise are outside the domain (documented to abort the run)",
     "the reference interpreter runs cleanups last-in-first-out; the stages-still-run clause compares multisets, so another "
     "order only matters where a cleanup re-registers a callable / re-raises a MultipleExceptions first seen in another cleanup",
     "a skip decorator either short-circuits the whole test or leaves setUp / tearDown / cleanups running around a method "
-    "that raises the skip; a decorated test that runs its own body is reported (decorator-skip:ran-code) although the "
+    "that raises the skip (the outcome is then whatever those stages make of it, also when they log nothing: no upcall, a "
+    "failure forced from outside, an unrelated skipException); a decorated test that runs its own body is reported (decorator-skip:ran-code) although the "
     "statement itself only asks for one outcome",
     "with result=None a startTestRun/stopTestRun pair around the default result is optional; if either is sent both must be, "
     "first and last",
@@ -132,6 +141,27 @@ def _bag(log):
     return sorted(repr(e) for e in log)
 
 
+def _leaves(e):
+    if isinstance(e, BaseExceptionGroup):
+        for m in e.exceptions:
+            yield from _leaves(m)
+    else:
+        yield e
+
+
+def _stands_for(exc, o):
+    """``exc`` left run() for the raised object ``o``: it is ``o`` itself or - ``o`` being a BaseExceptionGroup - a
+    part of it that still does not derive from Exception: a (nested) member or a subgroup (split()) made of its
+    very members."""
+    if exc is o:
+        return True
+    if not isinstance(o, BaseExceptionGroup) or isinstance(exc, Exception):
+        return False
+    own = list(_leaves(o))
+    part = list(_leaves(exc))
+    return bool(part) and all(any(p is q for q in own) for p in part)
+
+
 def check(spec, clauses=("bracket", "nonexc")):
     prog, flavour = spec["prog"], spec["flavour"]
     vs = []
@@ -142,7 +172,8 @@ def check(spec, clauses=("bracket", "nonexc")):
     tag = flavour
     # ---- bracketing
     if flavour == "stream":
-        core = [n for n in names if n not in ("startTestRun", "stopTestRun")]
+        # ("exists" announces a test id, it is neither the start nor an outcome of the run)
+        core = [n for n in names if n not in ("startTestRun", "stopTestRun", "status:exists")]
         want_shape = core[:1] == ["startTest"] and len(core) == 2 and core[1] in OUTCOMES
         if not want_shape:
             vs.append(V("bracket", "stream-shape", "stream shows %r, expected inprogress then exactly one final status" % (core,)))
@@ -175,10 +206,17 @@ def check(spec, clauses=("bracket", "nonexc")):
     outs = [n for n in names if n in OUTCOMES]
     # ---- decorated skips run nothing
     if model.skipped_by_decorator:
-        alt = skip_alternative(prog) if obs["live"].log else None
-        if alt is not None and _bag(alt.log) == _bag(obs["live"].log):
+        alt = skip_alternative(prog)
+        same = _bag(alt.log) == _bag(obs["live"].log)
+        skipped = not outs or outs[0] == R.degrade("addSkip", flavour)
+        if same and obs["live"].log:
             # setUp / tearDown / the cleanups ran around the skipping method: the statement does not say they must
             # not; the outcome is then whatever those stages made of it and the clauses below apply to this reading
+            model = alt
+        elif same and not skipped and (alt.force or prog.get("custom_skip") or any(r["i"] != SKIP_STANDIN for r in alt.raised)):
+            # the same reading where the stages leave no trace in the execution log (nothing logged in them) and yet
+            # decide the outcome: a setUp / tearDown that never upcalls, a failure forced from outside, a test
+            # class whose skipException is unrelated to the SkipTest of the decorator
             model = alt
         else:
             if obs["live"].log:
@@ -199,7 +237,7 @@ def check(spec, clauses=("bracket", "nonexc")):
         if exc is None:
             vs.append(V("nonexc", "swallowed", "%s did not propagate out of run() (raised kinds, in order: %r)" % (
                 nonexc[0]["kind"], [(r["kind"], r["stage"]) for r in model.raised])))
-        elif not any(exc is o for r in nonexc for o in obs["live"].raised_objs.get(r["i"], [])):
+        elif not any(_stands_for(exc, o) for r in nonexc for o in obs["live"].raised_objs.get(r["i"], [])):
             vs.append(V("nonexc", "other-exception", "run() raised %r, which is not one of the raised non-Exception errors" % (exc,)))
         if flavour != "stream" and "stopTest" not in names:
             vs.append(V("nonexc", "no-stopTest-before-propagation", "stopTest not delivered before the exception left run()"))
